@@ -1,5 +1,6 @@
 import NutsModel.Drv.Common
 import NutsModel.Model.Controller
+import NutsModel.Model.InitRetry
 
 namespace NutsModel.Drv.Ctl
 open NutsModel NutsModel.Model NutsModel.Drv
@@ -106,9 +107,25 @@ def chainRec (t : Toks) : Verdict := Id.run do
     | _ => return fail k "model is not at a loop top"
   return .ok
 
+/-- `init case nbad last observed`: the first `nbad` initial points of a chain were rejected (recoverable error), every later attempt has
+    outcome `last` (0 accepted, 1 unrecoverable error, 2 rejected as well); `observed`: 0 the chain started sampling, 1 it ended with the
+    "Unrecoverable error during initialization" error, 2 with "All initialization points failed".  The retry-loop model must agree. -/
+def initRec (t : Toks) : Verdict := Id.run do
+  let some case := natAt t 1 | return .bad "case"
+  let some nbad := natAt t 2 | return .bad "nbad"
+  let some last := natAt t 3 | return .bad "last"
+  let some observed := natAt t 4 | return .bad "observed"
+  let att : Attempt := match last with | 0 => .ok | 1 => .fatal | _ => .bad
+  let want : Nat := match chainInit (scenario nbad att) with
+    | .started _ => 0 | .fatal _ => 1 | .allFailed => 2 | .noAttempt => 3
+  if want != observed then
+    return .mismatch s!"init case={case}: {nbad} rejected start points then outcome {last}: the retry-loop model ends in {want}, the chain in {observed} (0 started, 1 unrecoverable, 2 all failed)"
+  return .ok
+
 def dispatch (t : Toks) : Option Verdict :=
   match t[0]? with
   | some "chain" => some (chainRec t)
+  | some "init" => some (initRec t)
   | _ => none
 
 end NutsModel.Drv.Ctl
